@@ -189,6 +189,9 @@ func keyC09(c *Ctx, f Found) string {
 		if g.Plan.Order.Mode != "" && g.Plan.Order.Mode != "identity" {
 			dims = append(dims, "map-order(several sites)")
 		}
+		if g.Plan.Goroutines != "" && g.Plan.Goroutines != "native" {
+			dims = append(dims, "goroutine-schedule("+g.Plan.Goroutines+")")
+		}
 		if g.Patterns != nil {
 			dims = append(dims, "pattern-order")
 		}
@@ -224,6 +227,10 @@ func (c *Ctx) finish(prop, level string, found []Found, judge Judge, keyFn func(
 		}
 		// cheap pre-key to avoid shrinking hundreds of duplicates
 		pre := f.V.Class + "|" + f.H.World.Name + "|" + fmt.Sprint(len(f.H.Ops))
+		if f.V.OpIndex < len(f.H.Ops) && f.H.Ops[f.V.OpIndex].Gen != nil {
+			g := f.H.Ops[f.V.OpIndex].Gen
+			pre += "|" + g.Plan.Goroutines + "|" + g.Plan.Order.Mode + fmt.Sprint(g.Plan.Order.Sites) + "|" + fmt.Sprint(len(g.Plan.Faults))
+		}
 		if seenKey["pre:"+pre] {
 			continue
 		}
